@@ -1,5 +1,5 @@
 use crate::{
-    LuaMemberKey, LuaMemberOwner, LuaType, TypeCheckFailReason, TypeCheckResult, TypeOps,
+    LuaMemberKey, LuaMemberOwner, LuaType, TypeCheckFailReason, TypeCheckResult,
     find_index_operations,
     semantic::type_check::{
         check_general_type_compact, type_check_context::TypeCheckContext,
@@ -14,7 +14,9 @@ pub fn check_array_type_compact(
     check_guard: TypeCheckGuard,
 ) -> TypeCheckResult {
     let source_base = if context.db.get_emmyrc().strict.array_index {
-        TypeOps::Union.apply(context.db, source_base, &LuaType::Nil)
+        // `base | nil`, built structurally: `TypeOps::Union` would expand an alias base into its
+        // origin (so a recursive alias never meets itself again) and would collapse `never | nil`.
+        LuaType::from_vec(vec![source_base.clone(), LuaType::Nil])
     } else {
         source_base.clone()
     };
